@@ -1,6 +1,7 @@
 from __future__ import annotations
 
 import os
+import threading
 from collections.abc import Iterable
 from pathlib import Path
 from types import TracebackType
@@ -30,10 +31,13 @@ class FakeSnowflakeConnection:
         create_schema: bool = True,
         db_path: str | os.PathLike | None = None,
         nop_regexes: list[str] | None = None,
+        multi_step_lock: threading.Lock | None = None,
         *args: Any,
         **kwargs: Any,
     ):
         self._duck_conn = duck_conn
+        # shared by the connections of an instance, see FakeSnowflakeCursor.execute
+        self._multi_step_lock = multi_step_lock or threading.Lock()
         self._is_closed = False
         # upper case database and schema like snowflake unquoted identifiers
         # so they appear as upper-cased in information_schema
